@@ -435,6 +435,46 @@ static void fallback_case(vh_rng* r) {
   vh_count("fallback_types");
 }
 
+
+/* two different type objects may carry the same name (a run-time type named like a built-in, two run-time types
+   created with one name): they are still different types -- a cast from one to the other raises ValueError, and
+   each answers lookups with its own instances */
+static void same_name_types(vh_rng* r) {
+  static const char* NM[] = { "Int", "String", "Array", "Point", "Len", "KeyError" };
+  const char* nm = NM[vh_below(r, 6)];
+  static void* one[1] = { (void*)stub0 };
+  var ia = make_instance(Len, 1, one, 1), ib = make_instance(Len, 1, one, 1);
+  var A = new_root(Type, $S(strdup(nm)), $I(16), ia);
+  var B = new_root(Type, $S(strdup(nm)), $I(16), ib, make_instance(Hash, 1, one, 1));
+  var pairs[3][2] = { { A, B }, { B, A }, { A, NULL } };
+  var builtin = NULL;
+  for (int i = 0; i < NBUILTIN; i++) { if (strcmp(raw_name(*BUILTIN_TYPES[i]), nm) == 0) { builtin = *BUILTIN_TYPES[i]; } }
+  for (int i = 0; i < NCLASSES; i++) { if (strcmp(CLASSES[i].name, nm) == 0) { builtin = *CLASSES[i].cls; } }
+  pairs[2][1] = builtin;
+  vh_op("two run-time types named \"%s\"%s: casts and lookups", nm, builtin ? " (and the built-in of that name)" : "");
+  for (int k = 0; k < 3; k++) {
+    var from = pairs[k][0], to = pairs[k][1];
+    if (to == NULL) { continue; }
+    char buf[sizeof(struct Header) + 64]; memset(buf, 0, sizeof buf);
+    var obj = fake_object(from, buf);
+    var exc = NULL, res = NULL;
+    vh_evals(2);
+    VH_CATCH(res = cast(obj, from), exc);
+    if (exc || res != obj) { vh_violation(K("cast:to-own-type-failed"), "cast of an object of a type named %s to that very type gave %s", nm, vh_exc_name(exc)); }
+    VH_CATCH(res = cast(obj, to), exc);
+    if (exc != ValueError) { vh_violation(K("cast:to-another-type-with-the-same-name-did-not-raise-valueerror"), "cast of an object of one type named \"%s\" to a DIFFERENT type object of the same name gave %s", nm, vh_exc_name(exc)); }
+    if (to != builtin) {
+      VH_CATCH(res = cast(fake_object(to, buf), from), exc);
+      if (exc != ValueError) { vh_violation(K("cast:to-another-type-with-the-same-name-did-not-raise-valueerror"), "reverse cast between two types named \"%s\" gave %s", nm, vh_exc_name(exc)); }
+    }
+  }
+  vh_evals(4);
+  if (type_instance(A, Len) != ia || type_instance(B, Len) != ib) { vh_violation(K("type_instance:wrong-instance"), "two types named \"%s\": a lookup of Len returned the other type's instance", nm); }
+  if (type_instance(A, Hash) != NULL || type_instance(B, Hash) == NULL) { vh_violation(K("type_instance:wrong-instance"), "two types named \"%s\": Hash is declared by one of them only", nm); }
+  vh_count("same_name_type_pairs");
+  del_root(A); del_root(B);
+}
+
 /* ---------- concurrency: first lookups against cold caches from 16 threads ---------- */
 
 enum { NTHREADS = 16 };
@@ -554,6 +594,7 @@ static void fixed(void) {
     vh_count("oversized_type_attempts");
   }
   for (int k = 0; k < 40; k++) { vh.oplen = 0; vh.oplog[0] = 0; vh.nops = 0; fallback_case(&r); }
+  for (int k = 0; k < 24; k++) { vh.oplen = 0; vh.oplog[0] = 0; vh.nops = 0; same_name_types(&r); }
   concurrent_cold_lookups(&r, 50);
 }
 
@@ -563,6 +604,7 @@ static void case_random(vh_rng* r, long index) {
     int ni = vh_chance(r, 20) ? 200 + (int)vh_below(r, 57) : (int)vh_below(r, 40);
     runtime_type_case(r, ni);
     for (int k = 0; k < 4; k++) { fallback_case(r); }
+    same_name_types(r);
   } else if (index % 3 == 1) {
     int n = 200 + (int)vh_below(r, 400);
     int cold = vh_chance(r, 50);
